@@ -197,7 +197,7 @@ def gen(tier, seed):
 
 RULE = ('one config = shape x per-field {Bump (clone adds 1), Bump with method (xor 0x80), plain u8; with Copy: Unlawful (Copy but clone adds 1), Unlawful with method (enums)} x Copy on/off; '
         'clone: arbitrary x; clone_from: arbitrary ordered pair (a, b) incl. different variants. Non-trivial = both harnesses passed and their witnesses (reached, same/different variant) SATISFIED.')
-BOUNDS = dict(max_fields='3 (quick), 4 (thorough)', max_variants='3 (quick), 4 (thorough)', outside=['>3 fields/variants', 'field types other than Bump/Unlawful/u8', 'Drop side effects of the overwritten value'])
+BOUNDS = dict(max_fields='3 (quick), 4 (thorough); plus three 13-field shapes', max_variants='3 (quick), 4 (thorough)', outside=['>3 fields/variants', 'field types other than Bump/Unlawful/u8', 'Drop side effects of the overwritten value'])
 ASSUME = ['Kani 0.68 / CBMC 6.11 / CaDiCaL; rustc nightly-2026-08-21 x86_64 dev profile',
           'expected clone written from the config (each field transformed exactly once by its own Clone or the method); with Copy and no method: bitwise',
           '"indistinguishable" is checked as structural equality with the expected value of b.clone()']
